@@ -159,7 +159,7 @@ class ClientGenerator:
     ):
         """Add method to client."""
         arguments, arguments_dict = self.arguments_generator.generate(
-            definition.variable_definitions
+            definition.variable_definitions, reserved_names=[return_type]
         )
 
         variable_names = self.get_variable_names(arguments)
